@@ -864,6 +864,10 @@ func (v *Verifier) applySpecFunc(env *Env, sf *SpecFunc, args []SExpr) Val {
 		if av.T == nil || av.K == KInt {
 			av.T = pt
 		}
+		// a struct-valued parameter may be given as a reference to the object: read it
+		if kindOf(pt) == KStruct && av.K == KRef {
+			av = v.frameFor(env).loadObj(env.cur, av.A, pt)
+		}
 		avals = append(avals, av)
 	}
 	if sf.Body == nil {
